@@ -212,7 +212,7 @@ def gate_agreement(ctx):
     rnd = random.Random(ctx.seed)
     band = []
     for _ in range(300 if ctx.quick else 5000):
-        k = rnd.choice([0.5, 1.0, 2.0, 2.5, 3.0, 4.0, 5.0, 7.25])
+        k = rnd.choice([0.5, 1.0, 2.0, 2.5, 3.0, 4.0, 5.0, 7.25, 0.1, 0.7, 1.0 / 3.0, 2.7, 4.9])      # incl. thresholds that are not exact in single precision
         m = rnd.choice([1, 2, 3, 5, 7])
         thr = k * math.sqrt(2.0 * m) + m
         nis = thr
